@@ -217,8 +217,6 @@ def run(ctx):
     ctx.floor("C06.row-boundary", "Ok paths of end_row with columns", n, 2)
     # cells and rows of 16 MiB and more are split by the framer: the framing clauses (C04's rules) are part of
     # `arrives unchanged` for the size classes this property quantifies over
-    import rules._wire as W_
-    W_.run_outbound(ctx)
 
 
 def at_rem(x, k, secs):
